@@ -544,6 +544,26 @@ def c07fifoLine (f : List String) : String :=
       s!"{id} {obs} spec={if obs == dobs then "ok" else "FAIL:model"} ispec={isp} dom=1 nt={if effs.length ≥ 2 then 1 else 0}"
   | _ => "!badline"
 
+/-- C16 in real time: `<id> <gap_s> <noise_s> [obs=C:n]` — with the extracted ticker period `I` and cut-off:
+halves at most `I` apart are correlated (all 3 events of the session emitted), halves more than `2·I`
+apart are not (nothing emitted); in between either (`window_daemon`) -/
+def timedLine (f : List String) : String :=
+  match f with
+  | id :: gap :: _noise :: rest =>
+    match gap.toNat? with
+    | none => s!"{id} !badcase"
+    | some g =>
+      let i : Int := Gen.cleanupTickerNs
+      let back : Int := Gen.cleanupCutoffBackNs
+      let gns : Int := (g : Int) * 1000000000
+      let want := if gns ≤ back then "C:3" else if gns > i + back then "C:0" else "C:*"
+      let isp := match kv rest "obs" with
+        | none => "-"
+        | some x => if want == "C:*" || x == want then "ok" else
+            (if want == "C:3" then "FAIL:halves-within-the-window-not-correlated" else "FAIL:stale-half-correlated-after-the-window")
+      s!"{id} {want} spec=ok ispec={isp} dom=1 nt=1"
+  | _ => "!badline"
+
 partial def loop (h : IO.FS.Stream) (out : IO.FS.Stream) (f : List String → String) : IO Unit := do
   let line ← h.getLine
   if line.isEmpty then return ()
@@ -562,6 +582,7 @@ def main (args : List String) : IO UInt32 := do
   | ["health"] => loop stdin stdout healthLine; return 0
   | ["dir"] => loop stdin stdout dirLine; return 0
   | ["pipe"] => loop stdin stdout pipeLine; return 0
+  | ["timed"] => loop stdin stdout timedLine; return 0
   | ["reasm"] => loop stdin stdout reasmLine; return 0
   | ["handoff"] => loop stdin stdout handoffLine; return 0
   | ["workers"] => loop stdin stdout workersLine; return 0
